@@ -162,14 +162,14 @@ func sampleOf(res *prodResult) map[string]interface{} {
 
 // hookFacts about one message pointer.
 type ptrFacts struct {
-	lastPoint   string
-	outcomes    int
-	isMarker    bool
-	flags       int
-	exhausted   bool
-	stampEpoch  int16
-	hasSeq      bool
-	otherEpoch  bool // was put into a set labelled with another epoch than stamped
+	lastPoint    string
+	outcomes     int
+	isMarker     bool
+	flags        int
+	exhausted    bool
+	stampEpoch   int16
+	hasSeq       bool
+	otherEpoch   bool // was put into a set labelled with another epoch than stamped
 	inRetryBatch bool
 	outcomeErrs  int // ap.outcome events with an error
 	outcomeOKs   int // ap.outcome events without
